@@ -485,7 +485,12 @@ for cfg in [{"kind": "x", "colors": 256, "rgb8": r, "colon": c, "how": how} for 
     history(cfg, 2, set(), script=[(rng.random() < 0.5, heavy_pen(cfg, set()), "heavy")] + SUSP[:2])
 for _ in range(N):
     cfg = random_cfg()
-    history(cfg, rng.choice([3, 6, 10, 16, 24]), set(), init=nondefault_pen(cfg) if rng.random() < 0.25 else None)
+    script = None
+    if cfg.get("outbuf") and rng.random() < 0.5:
+        # a short request that stays pending in the output buffer, then one whose SGR string is long and takes it back
+        k = rng.choice(BOOLS)
+        script = [(False, {k: 1}, "buffered-short"), (True, nondefault_pen(cfg, avoid=k), "buffered-long")]
+    history(cfg, rng.choice([3, 6, 10, 16, 24]), set(), init=nondefault_pen(cfg) if rng.random() < 0.25 else None, script=script)
 
 
 # the sweep: one attribute changes, to every class of value, while a non-default pen is in force
